@@ -185,6 +185,35 @@ def deviation(a, b):
     return d
 
 
+class PoisonEmpty:
+    """`np.empty` hands out uninitialised memory; entries a function never writes (e.g. the lower triangle of the LMM
+    forward cube, or everything when a synthesised enum value selects no branch) are not part of its value and differ between
+    any two calls.  During the INTERPRETER call np.empty / np.empty_like are replaced by NaN-filled allocations; positions
+    that are still NaN afterwards are excluded from the comparison (the compiled stream cannot be poisoned)."""
+
+    def __enter__(self):
+        import numpy as np
+        self.np, self.e, self.el = np, np.empty, np.empty_like
+
+        def empty(*a, **k):
+            arr = self.e(*a, **k)
+            if arr.dtype.kind == 'f':
+                arr.fill(np.nan)
+            return arr
+
+        def empty_like(*a, **k):
+            arr = self.el(*a, **k)
+            if arr.dtype.kind == 'f':
+                arr.fill(np.nan)
+            return arr
+        np.empty, np.empty_like = empty, empty_like
+        return self
+
+    def __exit__(self, *exc):
+        self.np.empty, self.np.empty_like = self.e, self.el
+        return False
+
+
 class Timeout(Exception):
     pass
 
@@ -255,7 +284,11 @@ def main():
                     signal.alarm(0)
                     continue
                 try:
-                    rp = ('ok', canon(disp.py_func(*clone(args))))
+                    if 'np.empty' in src:
+                        with PoisonEmpty():
+                            rp = ('ok', canon(disp.py_func(*clone(args))))
+                    else:
+                        rp = ('ok', canon(disp.py_func(*clone(args))))
                 except Timeout:
                     raise
                 except Exception as e:  # noqa: BLE001
@@ -276,6 +309,14 @@ def main():
                 # typically bounds checking that exists only in the interpreter; reported as skip with the reason
                 status, rec = 'skip', {'why': f'one stream raises on synthesised arguments (jit {rj}, py {rp[:2]})'[:200]}
                 continue
+            if 'np.empty' in src and rj[1] is not None and rp[1] is not None and len(rj[1]) == len(rp[1]):
+                keep = [i for i, y in enumerate(rp[1]) if not math.isnan(y)]
+                if len(keep) < len(rp[1]):
+                    if not keep:
+                        if status == 'skip':
+                            rec = {'why': 'only uninitialised (np.empty) entries on synthesised arguments'}
+                        continue
+                    rj, rp = ('ok', [rj[1][i] for i in keep]), ('ok', [rp[1][i] for i in keep])
             if any(not math.isfinite(x) for x in (rj[1] or []) + (rp[1] or [])):
                 # NaN/inf: the synthesised arguments are outside the function's domain (fastmath assumes no NaNs)
                 if status == 'skip':
